@@ -1,10 +1,177 @@
-/- Driver for `kind = "c03"` (and `"c03:…"`) cases. -/
+/- Driver for `kind = "c03"` cases: the corruption campaign, judged by the logical model `Model/Tamper.lean`.
+   Case format: see `harness/src/c03.rs`. -/
 import Driver.Common
+import AskarModel.Model.Tamper
 
 open Lean
 
 namespace Driver.C03
+open Askar Askar.Tamper
+open Askar.Decrypt (EK Res)
 
-def runCase (_j : Json) : Json := jerr "not implemented"
+/-- store key of the harness (`RAW_KEY`) and "another well-formed key" -/
+def rightKey : Nat := 1
+def otherKey : Nat := 2
+
+/-- length of a wrapped profile key: nonce 12 + CBOR 235 (map header 1, "ver":"1" 6, six × (4-byte name + 34-byte string)) + tag 16 -/
+def wrappedLen : Nat := 12 + (1 + 6 + 6 * (4 + 34)) + 16
+
+def bytesToString (b : Bytes) : String :=
+  match String.fromUTF8? ⟨b.toArray⟩ with
+  | some s => s
+  | none => "<non-utf8:" ++ Bytes.toHex b ++ ">"
+
+def parseTag (j : Json) : Tamper.Tag :=
+  match j with
+  | .arr a =>
+    let pl := match a[0]? with | some v => (v.getInt?.toOption.getD 0) != 0 | none => false
+    ⟨pl, utf8 (asStr (a[1]?.getD .null)), utf8 (asStr (a[2]?.getD .null))⟩
+  | _ => ⟨false, [], []⟩
+
+def parseRec (j : Json) : RecSpec :=
+  ⟨nat! j "k", utf8 (str! j "c"), utf8 (str! j "n"), value! j "v", (arr! j "t").map parseTag⟩
+
+def parseProfile (j : Json) : ProfSpec := ⟨str! j "name", (arr! j "recs").map parseRec⟩
+
+def tagLt (a b : Tamper.Tag) : Bool :=
+  if a.plaintext != b.plaintext then !a.plaintext && b.plaintext
+  else if a.name != b.name then Bytes.lt a.name b.name
+  else Bytes.lt a.value b.value
+
+def insertSorted {α} (lt : α → α → Bool) (x : α) : List α → List α
+  | [] => [x]
+  | y :: ys => if lt y x then y :: insertSorted lt x ys else x :: y :: ys
+
+def sortBy {α} (lt : α → α → Bool) (l : List α) : List α := l.foldr (insertSorted lt) []
+
+def jtag (t : Tamper.Tag) : Json :=
+  .arr #[jnat (if t.plaintext then 1 else 0), .str (bytesToString t.name), .str (bytesToString t.value)]
+
+def jentry (e : Entry) : Json :=
+  Json.mkObj [("k", jnat e.kind), ("c", .str (bytesToString e.cat)), ("n", .str (bytesToString e.name)), ("v", jvalue e.value),
+    ("t", .arr ((sortBy tagLt e.tags).map jtag).toArray)]
+
+def entryLt (a b : Entry) : Bool :=
+  if a.kind != b.kind then a.kind < b.kind
+  else if a.cat != b.cat then Bytes.lt a.cat b.cat
+  else Bytes.lt a.name b.name
+
+def jek (e : EK) : Json := jerr e.name
+
+def jres {α} (f : α → Json) : Res α → Json
+  | .ok a => f a
+  | .err e => jek e
+  | .panic => .str "panic"
+
+def janswer : Answer → Json
+  | .entry none => .null
+  | .entry (some e) => jentry e
+  | .entries es => .arr ((sortBy entryLt es).map jentry).toArray
+  | .count n => jnat n
+
+def catOpt (j : Json) : Option Bytes := (strOpt j "c").map utf8
+
+def parseRead (j : Json) : Read :=
+  match str! j "r" with
+  | "fetch" => .fetch (nat! j "k") (utf8 (str! j "c")) (utf8 (str! j "n"))
+  | "count" => .count none (catOpt j)
+  | _ => .scan none (catOpt j)
+
+/-- index of record `r` of profile `p` in the item list of `store` (insertion order, profile by profile) -/
+def rowIndex (ps : List ProfSpec) (p r : Nat) : Nat := ((ps.take p).map (·.recs.length)).foldl (· + ·) 0 + r
+
+def colOf (col : String) (t : Nat) : Option Col :=
+  match col with
+  | "category" => some .category
+  | "name" => some .name
+  | "value" => some .value
+  | "tag_name" => some (.tagName t)
+  | "tag_value" => some (.tagValue t)
+  | _ => none
+
+/-- the logical effect of a byte-level mutation of a cell holding `len0` bytes: `none` = bytes unchanged -/
+def garbageOf (m : Json) (len0 : Nat) : Option (Option Nat) :=
+  if (getD? m "flip").isSome then some (some len0)                       -- at least one bit differs
+  else match natOpt m "trunc" with
+    | some l => some (if l = len0 then none else some l)
+    | none =>
+      match strOpt m "extend" with
+      | some h => let k := h.length / 2; some (if k = 0 then none else some (len0 + k))
+      | none => if (getD? m "empty").isSome then some (some 0) else none
+
+def runReads (db : Db) (profile : String) (reads : List Read) : Json :=
+  .arr ((reads.map fun r => jres janswer (read db rightKey profile r)).toArray)
+
+def runOpen (db : Db) (ps : List ProfSpec) (reads : List Read) (how : String) : Json :=
+  let dflt := (ps.head?.map (·.name)).getD ""
+  let (method, pass) : Option Method × Pass := match how with
+    | "wrong_key" => (some .raw, .key otherKey)
+    | "empty_key" => (some .raw, .empty)
+    | "bad_format" => (some .raw, .malformed)
+    | "short_key" => (some .raw, .wrongLength)
+    | "wrong_method_kdf" => (some .kdf, .key rightKey)
+    | "wrong_method_none" => (some .unprotected, .key rightKey)
+    | "no_method" => (none, .key rightKey)
+    | _ => (none, .key otherKey)
+  match openWith Decrypt.unwrapChecksLength db method pass dflt with
+  | .ok _ => Json.mkObj [("open", .str "ok"), ("res", runReads db dflt reads)]
+  | .err e => Json.mkObj [("open", jek e)]
+  | .panic => Json.mkObj [("open", .str "panic")]
+
+def runOp (ps : List ProfSpec) (db0 : Db) (reads : List Read) (op : Json) : Json :=
+  match strOpt op "open" with
+  | some how => runOpen db0 ps reads how
+  | none =>
+    let col := str! op "col"
+    let p := nat! op "p"
+    let m := (getD? op "mut").getD .null
+    let dflt := (ps.head?.map (·.name)).getD ""
+    let pname := ((ps[p]?).map (·.name)).getD ""
+    -- the tampered database and the original length of the cell
+    let tampered : Option (Nat × Db) :=
+      if col = "profile_key" then
+        match db0.profiles[p]? with
+        | none => none
+        | some _ =>
+          match getD? m "subst" with
+          | some s => (db0.profiles[nat! s "p"]?).map fun q => (wrappedLen, tamperProfile db0 p q.key)
+          | none =>
+            match garbageOf m wrappedLen with
+            | some (some l) => some (wrappedLen, tamperProfile db0 p (.garbage l))
+            | some none => some (wrappedLen, db0)
+            | none => none
+      else
+        match colOf col (nat! op "t") with
+        | none => none
+        | some c =>
+          let i := rowIndex ps p (nat! op "r")
+          match (db0.items[i]?).bind (·.get? c) with
+          | none => none
+          | some ct0 =>
+            match getD? m "subst" with
+            | some s =>
+              let j := rowIndex ps (nat! s "p") (nat! s "r")
+              let c2 := (colOf col (nat! s "t")).getD c
+              ((db0.items[j]?).bind (·.get? c2)).map fun x => (ct0.len, tamperItem db0 i c x)
+            | none =>
+              match garbageOf m ct0.len with
+              | some (some l) => some (ct0.len, tamperItem db0 i c (.garbage l))
+              | some none => some (ct0.len, db0)
+              | none => none
+    match tampered with
+    | none => jerr "model: no such cell or mutation"
+    | some (len0, db) =>
+      if violatesUnique db then Json.mkObj [("skip", .str "unique")] else
+      -- the handle is opened on the default profile first (`open_db`), then the reads run on the op's profile
+      match openWith Decrypt.unwrapChecksLength db (some .raw) (.key rightKey) dflt with
+      | .err e => Json.mkObj [("len", jnat len0), ("open", jek e)]
+      | .panic => Json.mkObj [("len", jnat len0), ("open", .str "panic")]
+      | .ok _ => Json.mkObj [("len", jnat len0), ("open", .str "ok"), ("res", runReads db pname reads)]
+
+def runCase (j : Json) : Json :=
+  let ps := (arr! j "profiles").map parseProfile
+  let db0 := store rightKey ps
+  let reads := (arr! j "reads").map parseRead
+  .arr (((arr! j "ops").map (runOp ps db0 reads)).toArray)
 
 end Driver.C03
